@@ -66,6 +66,9 @@ def gen_obs_functions(prog):
         b.append('  o.ent(pfx, "vcomplete", v.IsComplete());')
         b.append('  o.ent(pfx, "sizeknown", v.SizeIsKnown());')
         b.append('  if (v.SizeIsKnown()) o.ent(pfx, "size", num(v.%s()));' % size_call)
+        unit_name = "Bytes" if T["unit"] == 8 else "Bits"
+        b.append('  o.ent(pfx, "minsize", num(v.MinSizeIn%s().Read()));' % unit_name)
+        b.append('  o.ent(pfx, "maxsize", num(v.MaxSizeIn%s().Read()));' % unit_name)
         for f in T["fields"]:
             if f["kind"] == "sub" and f.get("anon"):
                 continue
